@@ -37,9 +37,9 @@ theorem stepPhase_noraise (pl : Plan) (acc : Acc) (n : Nat) (p : Phase) (hf : pl
   split
   · exact hr
   · split
-    · exact hr
+    · rfl
     · split
-      · exact hr
+      · rfl
       · next k hk =>
         have := hg k hk
         simp only [guardedFault, Bool.and_eq_true] at this
@@ -62,5 +62,527 @@ theorem tickFrom_noraise (pl : Plan) (hf : pl.hf = .none) :
     have := hg.1
     rw [hk] at this
     exact this
+
+
+/-! ## predicates kept by everything a tick does besides the command phase -/
+
+/-- Method Status Error, `_last_error` set, paused, System State Paused -/
+def ErrorState (s : Shell) : Prop :=
+  s.lastErr = true ∧ s.methodErr = true ∧ s.paused = true ∧ s.sys = .paused
+
+/-- no command request pending or in progress -/
+def Idle (s : Shell) : Prop := s.queue = [] ∧ s.executing = []
+
+instance (s : Shell) : Decidable (ErrorState s) := by unfold ErrorState; exact inferInstance
+instance (s : Shell) : Decidable (Idle s) := by unfold Idle; exact inferInstance
+
+theorem cmdPhase_idle (s : Shell) (h : Idle s) : cmdPhase s = s := by
+  obtain ⟨h1, h2⟩ := h
+  cases s
+  simp only at h1 h2
+  subst h1 h2
+  rfl
+
+structure Pres (P : Shell → Prop) : Prop where
+  err : ∀ s, P s → P (setErr s)
+  prog : ∀ s, P s → P { s with progStarted := true }
+
+theorem runHandler_pres {P : Shell → Prop} (hP : Pres P) (p : Phase) (k : Fault) (s : Shell)
+    (hg : guardedFault p k = true) (h : P s) : P (runHandler p.handler .none s).1 := by
+  simp only [guardedFault, Bool.and_eq_true, Bool.or_eq_true, beq_iff_eq] at hg
+  rcases hg.2 with h1 | h1 <;> rw [h1] <;> simp only [runHandler, setErrorState]
+  · exact hP.err s h
+  · split
+    · exact h
+    · exact hP.err s h
+
+/-- one phase keeps `P` when the plan is guarded there and the phase's own effect keeps `P` -/
+theorem stepPhase_pres {P : Shell → Prop} (hP : Pres P) (pl : Plan) (hf : pl.hf = .none) (acc : Acc) (n : Nat)
+    (p : Phase) (hg : ∀ k, pl.at n = some k → guardedFault p k = true)
+    (he : pl.at n = none → ∀ s, P s → P (effect p.callee s)) (h : P acc.s) :
+    P (stepPhase pl acc n p).s := by
+  unfold stepPhase
+  split
+  · exact h
+  · split
+    · exact h
+    · split
+      · exact h
+      · split
+        · next hk => exact he hk _ h
+        · next k hk =>
+          have hgk := hg k hk
+          have hc : covers k p.catches = true := by
+            simp only [guardedFault, Bool.and_eq_true] at hgk; exact hgk.1
+          rw [if_pos hc, hf]
+          exact runHandler_pres hP p k _ hgk h
+
+theorem stepPhase_skip (pl : Plan) (acc : Acc) (n : Nat) (p : Phase) (f : String)
+    (hs : acc.skip ≠ some f) (hr : p.handlerReturns = true → p.fn ≠ f) :
+    (stepPhase pl acc n p).skip ≠ some f := by
+  unfold stepPhase
+  split
+  · exact hs
+  · split
+    · exact hs
+    · split
+      · simp
+      · split
+        · simp
+        · split
+          · simp only []
+            split
+            · next h => intro h2; exact hr h (Option.some.inj h2)
+            · simp
+          · simp
+
+/-- `P` survives the rest of a tick if the command phase, where it runs, keeps it -/
+theorem tickFrom_pres {P : Shell → Prop} (hP : Pres P) (pl : Plan) (hf : pl.hf = .none)
+    (hcmd : ∀ s, P s → P (cmdPhase s)) :
+    ∀ (ps : List Phase) (n : Nat) (acc : Acc), guardedFrom pl n ps = true → P acc.s →
+      P (tickFrom pl n ps acc).s := by
+  intro ps
+  induction ps with
+  | nil => intro n acc _ h; exact h
+  | cons p ps ih =>
+    intro n acc hg h
+    simp only [guardedFrom, Bool.and_eq_true] at hg
+    simp only [tickFrom]
+    apply ih _ _ hg.2
+    apply stepPhase_pres hP pl hf acc n p _ _ h
+    · intro k hk
+      have := hg.1
+      rw [hk] at this
+      exact this
+    · intro _ s hs
+      unfold effect
+      split
+      · exact hcmd s hs
+      · split
+        · exact hP.prog s hs
+        · exact hs
+
+/-! ## a failing instruction: the interpreter phase raises -/
+
+/-- `ErrorState ∧ Idle` -/
+def ErrIdle (s : Shell) : Prop := ErrorState s ∧ Idle s
+
+/-- before the interpreter phase: idle, and either already in the error state or still runnable -/
+def PreInterp (s : Shell) : Prop := Idle s ∧ (ErrorState s ∨ condHolds .runnable s = true)
+
+theorem errIdle_pres : Pres ErrIdle where
+  err := by
+    intro s h
+    exact ⟨⟨rfl, rfl, rfl, rfl⟩, h.2⟩
+  prog := by
+    intro s h
+    exact ⟨h.1, h.2⟩
+
+theorem errIdle_cmd (s : Shell) (h : ErrIdle s) : ErrIdle (cmdPhase s) := by
+  rw [cmdPhase_idle s h.2]; exact h
+
+theorem preInterp_pres : Pres PreInterp where
+  err := by
+    intro s h
+    exact ⟨h.1, Or.inl ⟨rfl, rfl, rfl, rfl⟩⟩
+  prog := by
+    intro s h
+    exact ⟨h.1, h.2⟩
+
+theorem preInterp_cmd (s : Shell) (h : PreInterp s) : PreInterp (cmdPhase s) := by
+  rw [cmdPhase_idle s h.1]; exact h
+
+/-- the phase is the guarded interpreter tick -/
+def isInterp (p : Phase) : Bool :=
+  p.callee == interpCallee && p.cond == .runnable && p.handler == .setError && p.fn == "tick"
+
+/-- the plan makes an interpreter phase raise -/
+def hitsInterp (pl : Plan) : Nat → List Phase → Bool
+  | _, [] => false
+  | n, p :: ps => (isInterp p && (pl.at n).isSome) || hitsInterp pl (n + 1) ps
+
+/-- no handler of the tick's own body `return`s -/
+def noTickReturn (ps : List Phase) : Bool := ps.all (fun p => !p.handlerReturns || p.fn != "tick")
+
+theorem stepPhase_hit (pl : Plan) (hf : pl.hf = .none) (acc : Acc) (n : Nat) (p : Phase) (k : Fault)
+    (hi : isInterp p = true) (hk : pl.at n = some k) (hg : guardedFault p k = true)
+    (hr : acc.raised = false) (hs : acc.skip ≠ some "tick") (h : PreInterp acc.s) :
+    ErrIdle (stepPhase pl acc n p).s := by
+  simp only [isInterp, Bool.and_eq_true, beq_iff_eq] at hi
+  obtain ⟨⟨⟨_, hcond⟩, hh⟩, hfn⟩ := hi
+  have hc : covers k p.catches = true := by
+    simp only [guardedFault, Bool.and_eq_true] at hg; exact hg.1
+  unfold stepPhase
+  rw [hr, hfn, hcond]
+  simp only [Bool.false_eq_true, if_false, if_neg hs]
+  by_cases hrun : condHolds .runnable acc.s = true
+  · rw [hrun]
+    simp only [Bool.not_true, Bool.false_eq_true, if_false, hk, if_pos hc, hf, hh, runHandler, setErrorState]
+    exact ⟨⟨rfl, rfl, rfl, rfl⟩, h.1⟩
+  · have hE : ErrorState acc.s := by
+      rcases h.2 with h2 | h2
+      · exact h2
+      · exact absurd h2 hrun
+    simp only [Bool.not_eq_true] at hrun
+    rw [hrun]
+    simp only [Bool.not_false, if_true]
+    exact ⟨hE, h.1⟩
+
+theorem tickFrom_interp_fault (pl : Plan) (hf : pl.hf = .none) :
+    ∀ (ps : List Phase) (n : Nat) (acc : Acc), guardedFrom pl n ps = true → noTickReturn ps = true →
+      hitsInterp pl n ps = true → acc.raised = false → acc.skip ≠ some "tick" → PreInterp acc.s →
+      ErrIdle (tickFrom pl n ps acc).s := by
+  intro ps
+  induction ps with
+  | nil => intro n acc _ _ hh; simp [hitsInterp] at hh
+  | cons p ps ih =>
+    intro n acc hg hn hh hr hs h
+    simp only [guardedFrom, Bool.and_eq_true] at hg
+    simp only [noTickReturn, List.all_cons, Bool.and_eq_true] at hn
+    simp only [tickFrom]
+    have hgn : ∀ k, pl.at n = some k → guardedFault p k = true := by
+      intro k hk
+      have := hg.1
+      rw [hk] at this
+      exact this
+    by_cases hit : (isInterp p && (pl.at n).isSome) = true
+    · simp only [Bool.and_eq_true] at hit
+      obtain ⟨k, hk⟩ := Option.isSome_iff_exists.mp hit.2
+      apply tickFrom_pres errIdle_pres pl hf errIdle_cmd _ _ _ hg.2
+      exact stepPhase_hit pl hf acc n p k hit.1 hk (hgn k hk) hr hs h
+    · simp only [hitsInterp, Bool.or_eq_true] at hh
+      have hh' : hitsInterp pl (n + 1) ps = true := by
+        rcases hh with h1 | h1
+        · exact absurd h1 hit
+        · exact h1
+      apply ih _ _ hg.2 hn.2 hh'
+      · exact stepPhase_noraise pl acc n p hf hgn hr
+      · apply stepPhase_skip pl acc n p "tick" hs
+        intro hret
+        have := hn.1
+        simp only [hret, Bool.not_true, Bool.false_or, bne_iff_ne, ne_eq] at this
+        exact this
+      · apply stepPhase_pres preInterp_pres pl hf acc n p hgn _ h
+        intro _ s hs
+        unfold effect
+        split
+        · exact preInterp_cmd s hs
+        · split
+          · exact preInterp_pres.prog s hs
+          · exact hs
+
+
+/-! ## Stop -/
+
+/-- the command phase is the phase with index `c` (and only that one), it runs unconditionally in the
+    tick's own body -/
+def wfCmdFrom (c : Nat) : Nat → List Phase → Bool
+  | _, [] => true
+  | n, p :: ps => ((p.callee == cmdCallee) == (n == c)) &&
+                  (!(p.callee == cmdCallee) || (p.cond == .always && p.fn == "tick")) && wfCmdFrom c (n + 1) ps
+
+theorem runHandler_keep {P : Shell → Prop} (herr : ∀ s, P s → P (setErr s)) (p : Phase) (k : Fault) (s : Shell)
+    (hg : guardedFault p k = true) (h : P s) : P (runHandler p.handler .none s).1 := by
+  simp only [guardedFault, Bool.and_eq_true, Bool.or_eq_true, beq_iff_eq] at hg
+  rcases hg.2 with h1 | h1 <;> rw [h1] <;> simp only [runHandler, setErrorState]
+  · exact herr s h
+  · split
+    · exact h
+    · exact herr s h
+
+theorem stepPhase_keep {P : Shell → Prop} (pl : Plan) (hf : pl.hf = .none) (acc : Acc) (n : Nat)
+    (p : Phase) (hg : ∀ k, pl.at n = some k → guardedFault p k = true)
+    (herr : ∀ k, pl.at n = some k → ∀ s, P s → P (setErr s))
+    (he : pl.at n = none → ∀ s, P s → P (effect p.callee s)) (h : P acc.s) :
+    P (stepPhase pl acc n p).s := by
+  unfold stepPhase
+  split
+  · exact h
+  · split
+    · exact h
+    · split
+      · exact h
+      · split
+        · next hk => exact he hk _ h
+        · next k hk =>
+          have hgk := hg k hk
+          have hc : covers k p.catches = true := by
+            simp only [guardedFault, Bool.and_eq_true] at hgk; exact hgk.1
+          rw [if_pos hc, hf]
+          exact runHandler_keep (herr k hk) p k _ hgk h
+
+theorem effect_other {P : Shell → Prop} (hp : ∀ s, P s → P { s with progStarted := true }) (callee : String)
+    (hne : callee ≠ cmdCallee) (s : Shell) (h : P s) : P (effect callee s) := by
+  unfold effect
+  rw [if_neg hne]
+  split
+  · exact hp s h
+  · exact h
+
+theorem at_nil (pl : Plan) (h : pl.faults = []) (n : Nat) : pl.at n = none := by
+  simp [Plan.at, h]
+
+/-- `A` up to (and including) position `c`, `B` after it -/
+def Stg (A B : Shell → Prop) (c n : Nat) (s : Shell) : Prop := (n ≤ c → A s) ∧ (c < n → B s)
+
+/-- a tick whose command phase (index `c`) is not made to fail takes `A` before it to `B` after it -/
+theorem tickFrom_stage {A B : Shell → Prop} (pl : Plan) (hf : pl.hf = .none) (c : Nat)
+    (hpA : ∀ s, A s → A { s with progStarted := true }) (hpB : ∀ s, B s → B { s with progStarted := true })
+    (hE : pl.faults = [] ∨ ((∀ s, A s → A (setErr s)) ∧ (∀ s, B s → B (setErr s))))
+    (hAB : ∀ s, A s → B (cmdPhase s)) (hc : pl.at c = none) :
+    ∀ (ps : List Phase) (n : Nat) (acc : Acc), guardedFrom pl n ps = true → noTickReturn ps = true →
+      wfCmdFrom c n ps = true → acc.raised = false → acc.skip ≠ some "tick" →
+      Stg A B c n acc.s → Stg A B c (n + ps.length) (tickFrom pl n ps acc).s := by
+  intro ps
+  induction ps with
+  | nil => intro n acc _ _ _ _ _ h; simpa [tickFrom] using h
+  | cons p ps ih =>
+    intro n acc hg hn hw hr hs h
+    simp only [guardedFrom, Bool.and_eq_true] at hg
+    simp only [noTickReturn, List.all_cons, Bool.and_eq_true] at hn
+    simp only [wfCmdFrom, Bool.and_eq_true] at hw
+    simp only [tickFrom, List.length_cons]
+    have hgn : ∀ k, pl.at n = some k → guardedFault p k = true := by
+      intro k hk
+      have := hg.1
+      rw [hk] at this
+      exact this
+    have hlen : n + (ps.length + 1) = (n + 1) + ps.length := by omega
+    rw [hlen]
+    apply ih (n + 1) _ hg.2 hn.2 hw.2
+    · exact stepPhase_noraise pl acc n p hf hgn hr
+    · apply stepPhase_skip pl acc n p "tick" hs
+      intro hret
+      have := hn.1
+      simp only [hret, Bool.not_true, Bool.false_or, bne_iff_ne, ne_eq] at this
+      exact this
+    · by_cases hcal : p.callee = cmdCallee
+      · -- the command phase itself
+        have h1 := hw.1.1
+        have h2 := hw.1.2
+        simp only [hcal, beq_self_eq_true, Bool.true_eq, beq_iff_eq] at h1
+        simp only [hcal, beq_self_eq_true, Bool.not_true, Bool.false_or, Bool.and_eq_true, beq_iff_eq] at h2
+        subst h1
+        have hA : A acc.s := h.1 (Nat.le_refl _)
+        have hstep : (stepPhase pl acc n p).s = cmdPhase acc.s := by
+          unfold stepPhase
+          rw [hr, h2.1, h2.2, hc]
+          simp only [Bool.false_eq_true, if_false, if_neg hs, condHolds, Bool.not_true]
+          simp only [effect, hcal, if_true]
+        rw [hstep]
+        exact ⟨fun hle => absurd hle (by omega), fun _ => hAB _ hA⟩
+      · have h1 := hw.1.1
+        have hnc : n ≠ c := by
+          intro heq
+          have hb : (p.callee == cmdCallee) = false := by simpa using hcal
+          rw [hb, heq] at h1
+          simp at h1
+        constructor
+        · intro hle
+          have hA : A acc.s := h.1 (by omega)
+          apply stepPhase_keep pl hf acc n p hgn _ _ hA
+          · intro k hk
+            rcases hE with hE | hE
+            · rw [at_nil pl hE n] at hk; exact absurd hk (by simp)
+            · exact hE.1
+          · intro _ s hs'
+            exact effect_other hpA _ hcal s hs'
+        · intro hlt
+          have hB : B acc.s := h.2 (by omega)
+          apply stepPhase_keep pl hf acc n p hgn _ _ hB
+          · intro k hk
+            rcases hE with hE | hE
+            · rw [at_nil pl hE n] at hk; exact absurd hk (by simp)
+            · exact hE.2
+          · intro _ s hs'
+            exact effect_other hpB _ hcal s hs'
+
+/-- a tick whose command phase is made to fail keeps everything the handlers and the interpreter keep -/
+theorem tickFrom_keep_faulted {P : Shell → Prop} (pl : Plan) (hf : pl.hf = .none) (c : Nat)
+    (hp : ∀ s, P s → P { s with progStarted := true }) (herr : ∀ s, P s → P (setErr s))
+    (hc : pl.at c ≠ none) :
+    ∀ (ps : List Phase) (n : Nat) (acc : Acc), guardedFrom pl n ps = true → wfCmdFrom c n ps = true →
+      P acc.s → P (tickFrom pl n ps acc).s := by
+  intro ps
+  induction ps with
+  | nil => intro n acc _ _ h; exact h
+  | cons p ps ih =>
+    intro n acc hg hw h
+    simp only [guardedFrom, Bool.and_eq_true] at hg
+    simp only [wfCmdFrom, Bool.and_eq_true] at hw
+    simp only [tickFrom]
+    apply ih _ _ hg.2 hw.2
+    apply stepPhase_keep pl hf acc n p _ (fun _ _ => herr) _ h
+    · intro k hk
+      have := hg.1
+      rw [hk] at this
+      exact this
+    · intro hk s hs
+      by_cases hcal : p.callee = cmdCallee
+      · have h1 := hw.1.1
+        simp only [hcal, beq_self_eq_true, Bool.true_eq, beq_iff_eq] at h1
+        subst h1
+        exact absurd hk hc
+      · exact effect_other hp _ hcal s hs
+
+/-- an accepted Stop is waiting in the queue, nothing else is pending -/
+def StopQueued (s : Shell) : Prop :=
+  s.queue = [.stop] ∧ s.executing = [] ∧ s.stopInst = false ∧ s.sys ≠ .stopped
+
+/-- the Stop command is suspended at its `yield` -/
+def StopYielded (s : Shell) : Prop :=
+  s.queue = [] ∧ s.executing = [.stop] ∧ s.stopInst = true
+
+/-- the run is stopped, nothing pending -/
+def Stopped (s : Shell) : Prop :=
+  s.queue = [] ∧ s.executing = [] ∧ s.stopInst = false ∧ s.started = false
+
+/-- …and nothing touched the state since Stop completed -/
+def StoppedClean (s : Shell) : Prop := Stopped s ∧ s.sys = .stopped ∧ s.methodErr = false
+
+instance (s : Shell) : Decidable (StopQueued s) := by unfold StopQueued; exact inferInstance
+instance (s : Shell) : Decidable (StopYielded s) := by unfold StopYielded; exact inferInstance
+instance (s : Shell) : Decidable (Stopped s) := by unfold Stopped; exact inferInstance
+instance (s : Shell) : Decidable (StoppedClean s) := by unfold StoppedClean; exact inferInstance
+
+theorem cmdPhase_queued (s : Shell) (h : StopQueued s) : StopYielded (cmdPhase s) := by
+  obtain ⟨h1, h2, h3, h4⟩ := h
+  obtain ⟨running, started, paused, holding, stopping, sys, methodErr, lastErr, progStarted, queue, executing,
+    stopInst⟩ := s
+  simp only at h1 h2 h3 h4
+  subst h1 h2 h3
+  cases sys
+  case stopped => exact absurd rfl h4
+  all_goals (cases started <;> exact ⟨rfl, rfl, rfl⟩)
+
+theorem cmdPhase_yielded (s : Shell) (h : StopYielded s) : StoppedClean (cmdPhase s) := by
+  obtain ⟨h1, h2, h3⟩ := h
+  obtain ⟨running, started, paused, holding, stopping, sys, methodErr, lastErr, progStarted, queue, executing,
+    stopInst⟩ := s
+  simp only at h1 h2 h3
+  subst h1 h2 h3
+  cases started <;> exact ⟨⟨rfl, rfl, rfl, rfl⟩, rfl, rfl⟩
+
+theorem cmdPhase_stopped (s : Shell) (h : Stopped s) : Stopped (cmdPhase s) := by
+  rw [cmdPhase_idle s ⟨h.1, h.2.1⟩]; exact h
+
+
+/-- the phase table has its command phase at index `c`, unconditional, and no handler of the tick's own body
+    returns -/
+def TableWF (ps : List Phase) (c : Nat) : Prop :=
+  noTickReturn ps = true ∧ wfCmdFrom c 0 ps = true ∧ c < ps.length
+
+instance (ps : List Phase) (c : Nat) : Decidable (TableWF ps c) := by
+  unfold TableWF; exact inferInstance
+
+/-- a tick in which the command phase runs (is not made to fail): `A` before, `B` after -/
+theorem tick_stage {A B : Shell → Prop} (ps : List Phase) (c : Nat) (wf : TableWF ps c) (pl : Plan)
+    (hg : pl.Guarded ps) (hc : pl.at c = none)
+    (hpA : ∀ s, A s → A { s with progStarted := true }) (hpB : ∀ s, B s → B { s with progStarted := true })
+    (hE : pl.faults = [] ∨ ((∀ s, A s → A (setErr s)) ∧ (∀ s, B s → B (setErr s))))
+    (hAB : ∀ s, A s → B (cmdPhase s)) (s : Shell) (h : A s) : B (tick ps pl s).1 := by
+  have := tickFrom_stage (A := A) (B := B) pl hg.1 c hpA hpB hE hAB hc ps 0 { s := s } hg.2 wf.1 wf.2.1 rfl
+    (by simp) ⟨fun _ => h, fun hlt => absurd hlt (by omega)⟩
+  exact this.2 (by have := wf.2.2; omega)
+
+/-- a tick in which the command phase is made to fail -/
+theorem tick_keep_faulted {P : Shell → Prop} (ps : List Phase) (c : Nat) (wf : TableWF ps c) (pl : Plan)
+    (hg : pl.Guarded ps) (hc : pl.at c ≠ none)
+    (hp : ∀ s, P s → P { s with progStarted := true }) (herr : ∀ s, P s → P (setErr s))
+    (s : Shell) (h : P s) : P (tick ps pl s).1 :=
+  tickFrom_keep_faulted pl hg.1 c hp herr hc ps 0 { s := s } hg.2 wf.2.1 h
+
+/-- progress of an accepted Stop: 0 = queued, 1 = suspended at its yield, ≥ 2 = the run is stopped -/
+def Stage : Nat → Shell → Prop
+  | 0 => StopQueued
+  | 1 => StopYielded
+  | _ => Stopped
+
+theorem stage_prog (k : Nat) (s : Shell) (h : Stage k s) : Stage k { s with progStarted := true } := by
+  match k with
+  | 0 => exact h
+  | 1 => exact h
+  | _ + 2 => exact h
+
+theorem stage_err (k : Nat) (s : Shell) (h : Stage k s) : Stage k (setErr s) := by
+  match k with
+  | 0 => exact ⟨h.1, h.2.1, h.2.2.1, by simp [setErr]⟩
+  | 1 => exact h
+  | _ + 2 => exact h
+
+theorem stage_cmd (k : Nat) (s : Shell) (h : Stage k s) : Stage (k + 1) (cmdPhase s) := by
+  match k with
+  | 0 => exact cmdPhase_queued s h
+  | 1 => exact (cmdPhase_yielded s h).1
+  | _ + 2 => exact cmdPhase_stopped s h
+
+theorem tick_stage_ok (ps : List Phase) (c : Nat) (wf : TableWF ps c) (pl : Plan) (hg : pl.Guarded ps)
+    (hc : pl.at c = none) (k : Nat) (s : Shell) (h : Stage k s) : Stage (k + 1) (tick ps pl s).1 :=
+  tick_stage ps c wf pl hg hc (stage_prog k) (stage_prog (k + 1)) (Or.inr ⟨stage_err k, stage_err (k + 1)⟩)
+    (stage_cmd k) s h
+
+theorem tick_stage_faulted (ps : List Phase) (c : Nat) (wf : TableWF ps c) (pl : Plan) (hg : pl.Guarded ps)
+    (hc : pl.at c ≠ none) (k : Nat) (s : Shell) (h : Stage k s) : Stage k (tick ps pl s).1 :=
+  tick_keep_faulted ps c wf pl hg hc (stage_prog k) (stage_err k) s h
+
+theorem stage_mono (k : Nat) (hk : 2 ≤ k) (s : Shell) (h : Stage k s) : Stopped s := by
+  match k, hk with
+  | _ + 2, _ => exact h
+
+/-- the second command phase of a Stop with no fault anywhere in that tick: stopped, System State Stopped,
+    Method Status OK -/
+theorem tick_stop_clean (ps : List Phase) (c : Nat) (wf : TableWF ps c) (pl : Plan) (hg : pl.Guarded ps)
+    (hn : pl.faults = []) (s : Shell) (h : StopYielded s) : StoppedClean (tick ps pl s).1 :=
+  tick_stage ps c wf pl hg (at_nil pl hn c) (fun _ h => h) (fun _ h => h) (Or.inl hn) cmdPhase_yielded s h
+
+/-- number of ticks of the list whose command phase is not made to fail -/
+def okTicks (c : Nat) : List Plan → Nat
+  | [] => 0
+  | pl :: pls => (if pl.at c = none then 1 else 0) + okTicks c pls
+
+theorem run_stage (ps : List Phase) (c : Nat) (wf : TableWF ps c) :
+    ∀ (pls : List Plan) (k : Nat) (s : Shell), (∀ pl ∈ pls, pl.Guarded ps) → Stage k s →
+      Stage (k + okTicks c pls) (run ps pls s) := by
+  intro pls
+  induction pls with
+  | nil => intro k s _ h; exact h
+  | cons pl pls ih =>
+    intro k s hg h
+    simp only [run, okTicks]
+    have hgpl := hg pl (List.mem_cons_self)
+    have hgr : ∀ pl' ∈ pls, pl'.Guarded ps := fun pl' hm => hg pl' (List.mem_cons_of_mem _ hm)
+    by_cases hc : pl.at c = none
+    · rw [if_pos hc]
+      have := ih (k + 1) _ hgr (tick_stage_ok ps c wf pl hgpl hc k s h)
+      have e : k + 1 + okTicks c pls = k + (1 + okTicks c pls) := by omega
+      rw [e] at this
+      exact this
+    · rw [if_neg hc]
+      have := ih k _ hgr (tick_stage_faulted ps c wf pl hgpl hc k s h)
+      simpa using this
+
+/-! ## `_last_error` is only cleared by a merged method -/
+
+theorem execOne_lastErr (l : Loop) (c : Cmd) : (execOne l c).s.lastErr = l.s.lastErr := by
+  unfold execOne
+  simp only []
+  split
+  · rfl
+  · cases c <;> simp only [] <;> (repeat' split) <;> rfl
+
+theorem foldl_execOne_lastErr (cs : List Cmd) (l : Loop) : (cs.foldl execOne l).s.lastErr = l.s.lastErr := by
+  induction cs generalizing l with
+  | nil => rfl
+  | cons c cs ih => simp only [List.foldl]; rw [ih, execOne_lastErr]
+
+theorem cmdPhase_lastErr (s : Shell) : (cmdPhase s).lastErr = s.lastErr := by
+  unfold cmdPhase
+  simp only []
+  split <;> simp only [foldl_execOne_lastErr]
+
+theorem tick_keeps_lastErr (ps : List Phase) (pl : Plan) (hg : pl.Guarded ps) (s : Shell)
+    (h : s.lastErr = true) : (tick ps pl s).1.lastErr = true :=
+  tickFrom_pres (P := fun s => s.lastErr = true) ⟨fun _ _ => rfl, fun _ h => h⟩ pl hg.1
+    (fun s h => by rw [cmdPhase_lastErr]; exact h) ps 0 { s := s } hg.2 h
 
 end OPM.TickShell
